@@ -149,6 +149,14 @@ Theorem C03_edge_nothing_dropped_explicit :
 Proof. exact edgeE_drained_all. Qed.
 Print Assumptions C03_edge_nothing_dropped_explicit.
 
+(* 'addr;*' - the third subscription form: every published topic, hidden ones included *)
+Theorem C03_edge_lossless_everything :
+  forall gs cid ll its,
+    Forall group_wf gs -> ids_increasing MSG_ID_INITIAL_PREV gs -> EdgeG.fed SubEverything (xstream allparts gs) its ->
+    exists k, frames (snd (rrun Repaired (init_receiver cid false ll [cX SubEverything]) its)) = map (frame_ofX frameS) (firstn k gs).
+Proof. exact edgeS_lossless. Qed.
+Print Assumptions C03_edge_lossless_everything.
+
 (* Non-vacuity (explicit): subscription a, b>c; frame 0 carries a, a/x (gets through the prefix filter, never handed over)
    and b; frame 2 carries only z (handed over as {}); frame 5 carries b only *)
 Definition exX_tm : list (str * str) := [([97], [97]); ([98], [99])].
